@@ -75,7 +75,18 @@ fn gen_cases(rng: &mut Rng, tier: Tier) -> Vec<Value> {
             }
             // the proof-backed stream: metric matrices
             cfg.metric = true;
-            let sp = gen_problem(rng, &cfg);
+            // every sixth problem asks for vicinity clustering (jobs are merged into cluster jobs before the search and
+            // expanded afterwards); only the partition specification is judged on those (commute is not modelled)
+            let clustered = i % 6 == 5;
+            if clustered {
+                cfg.multi_jobs = false;
+                cfg.jobs = (8, 20);
+            }
+            let mut sp = gen_problem(rng, &cfg);
+            if clustered {
+                sp.clustering = Some(gen_clustering(rng, &sp));
+                return json!({"k": "clustered", "sp": sp, "row": i, "gens": gens, "relations": rng.chance(3, 4), "rseed": rng.next() % 1000});
+            }
             json!({"k": "solve", "sp": sp, "row": i, "gens": gens, "relations": rng.chance(1, 4), "rseed": rng.next() % 1000})
         })
         .collect()
